@@ -26,6 +26,7 @@ import contextlib
 import logging
 from typing import Any
 
+from harness.common import detsched as _detsched
 from harness.common import poolsim
 from harness.common.detsched import DetSched
 
@@ -58,7 +59,7 @@ TRUSTED = [
 PARTIAL = [
     "process death is visible to the pool only through proc.poll(): a worker that dies after its health check is handed out "
     "(the property says 'alive per its last poll')",
-    "KeyboardInterrupt is only raised from callbacks (not asynchronously between two bytecodes); use of a proxy or session "
+    "non-Exception BaseExceptions are only raised from callbacks (not asynchronously between two bytecodes); use of a proxy or session "
     "after its `with pool.connect` block is not generated",
     "preemption inside a single bytecode / C call is not explored",
 ]
@@ -67,7 +68,9 @@ RULE = (
     "raising at position k / from position k, leave normally or by exception) | advance clock | close | reap | idle_count | "
     "kill worker); client scripts mix unary calls and producer/exchange/header streams that are finished, closed, cancelled, "
     "abandoned, overlapped (by another stream or a unary call) or ended by a client-side error; hand-written corpus + callbacks "
-    "raising (an Exception, swallowed or propagated, or KeyboardInterrupt) at EVERY read position of every script shape + random "
+    "raising (an Exception, swallowed or propagated, or a non-Exception: KeyboardInterrupt, SystemExit, asyncio.CancelledError, a "
+    "user-defined BaseException) at EVERY read position of every script shape; the same proxy method repeated before / inside / "
+    "after streams; self-ended servers that poll() cannot see yet (lazy exit) or can; + random "
     "configurations; per configuration every schedule with <= 2 (quick) / 3 (thorough) preemptions "
     "(capped), then PCT / random-walk schedules, some with line-level preemption of the pool methods. Non-trivial = at least "
     "two borrows were served; distinct by (configuration, schedule)"
@@ -98,6 +101,26 @@ class Boom(Exception):
 
 class UserAbort(Exception):
     """The borrower leaves its `with` block by an exception of its own."""
+
+
+class Deadline(BaseException):
+    """A watchdog's own exception class: a BaseException that is neither an Exception nor one of the built-in three."""
+
+
+def interrupt_class(kind: str) -> type[BaseException]:
+    """The non-`Exception` BaseException classes a callback may raise: any of them cuts the borrow short mid-call."""
+    import asyncio
+
+    return {"ki": KeyboardInterrupt, "exit": SystemExit, "base": Deadline, "cancel": asyncio.CancelledError}[kind]
+
+
+INTERRUPTS = ("ki", "exit", "base", "cancel")
+
+
+def is_interrupt(e: BaseException) -> bool:
+    if isinstance(e, _detsched._Abort):  # the scheduler unwinding a thread at the end of a run: never ours
+        raise e
+    return not isinstance(e, Exception)
 
 
 def units(x: float) -> int:
@@ -167,7 +190,8 @@ def pool_class(PM: Any, ds: DetSched) -> type:
 
 def make_setup(PM: Any, cfg: dict[str, Any], holder: dict[str, Any]) -> Any:
     def setup(ds: DetSched) -> Any:
-        world = poolsim.World(emit=ds.emit, keys=cfg["keys"], fail_spawns=set(cfg.get("fail_spawns", [])))
+        world = poolsim.World(emit=ds.emit, keys=cfg["keys"], fail_spawns=set(cfg.get("fail_spawns", [])),
+                              lazy_exit=bool(cfg.get("lazy_exit", True)))
         holder["world"] = world
         pool = pool_class(PM, ds)(max_idle=cfg["maxIdle"], idle_timeout=cfg["timeout"] * Q)
         env = {"world": world, "pool": pool, "foreign": [], "handover": [], "samples": []}
@@ -184,7 +208,7 @@ def make_cb(spec: Any) -> Any:
     n = [0]
     at = set(spec.get("at", []))
     frm = spec.get("from")
-    exc = KeyboardInterrupt if spec.get("exc") == "ki" else Boom
+    exc: type[BaseException] = interrupt_class(spec["exc"]) if spec.get("exc") else Boom
 
     def cb(_msg: Any) -> None:
         n[0] += 1
@@ -262,7 +286,7 @@ def do_borrow(ds: DetSched, env: dict[str, Any], cfg: dict[str, Any], ti: int, j
             in_idle = any(e.transport is w for d in pool._idle.values() for e in d)
             ds.emit("got", w.wid)
             env["handover"].append({"tid": ds.tid(), "wid": w.wid, "alive": st["alive"], "in_idle": in_idle,
-                                    "synced": bool(st["alive"] and st["c2s"] == 0 and st["s2c"] == 0 and st["boundary"]),
+                                    "synced": bool(st["serving"] and st["c2s"] == 0 and st["s2c"] == 0 and st["boundary"]),
                                     "state": st})
             env["samples"].append(idle_total(pool))
             sess: Any = None
@@ -334,10 +358,11 @@ def do_borrow(ds: DetSched, env: dict[str, Any], cfg: dict[str, Any], ti: int, j
                         continue
                     else:
                         raise ValueError(name)
-                except KeyboardInterrupt as e:
-                    err = e  # a BaseException cuts the borrow short (after whatever the operation had done so far)
                 except Exception as e:  # noqa: BLE001 - whatever the client raised is the outcome of the operation
                     err = e
+                except BaseException as e:  # noqa: BLE001
+                    is_interrupt(e)
+                    err = e  # a non-Exception cuts the borrow short (after whatever the operation had done so far)
                 after = pooled_flags(pooled)
                 if cls == "openFail":
                     # the request went out (the pool's flags moved as for any sent stream request) or it never did
@@ -355,7 +380,7 @@ def do_borrow(ds: DetSched, env: dict[str, Any], cfg: dict[str, Any], ti: int, j
                         cls = "endDirty"
                 if cls is not None:
                     ds.emit("use", cls, *after)
-                if isinstance(err, KeyboardInterrupt):
+                if err is not None and not isinstance(err, Exception):
                     # connect() marks the transport on the way out (it has not yet: the flag is reported as it will be)
                     ds.emit("use", "interrupt", after[0], after[1], after[2], True)
                     raise err
@@ -363,10 +388,10 @@ def do_borrow(ds: DetSched, env: dict[str, Any], cfg: dict[str, Any], ti: int, j
                     raise err
             if spec.get("exit") == "raise":
                 raise UserAbort
-    except KeyboardInterrupt:
-        pass
-    except Exception as e:  # noqa: BLE001
-        if not entered:
+    except BaseException as e:  # noqa: BLE001
+        if is_interrupt(e):
+            pass
+        elif not entered:
             if isinstance(e, RuntimeError) and "closed" in str(e):
                 ds.emit("refused")
                 return
@@ -629,8 +654,14 @@ CORPUS: list[dict[str, Any]] = [
     _c(1, [[B(0, MASK), B()], [B()]]),
     _c(1, [[B(0, PROD_CLOSE, cb={"from": 2}), B(), B()], [B()]]),
     _c(1, [[B(0, PROD_CANCEL, cb={"from": 3}, propagate=True), B(), B()]]),
-    # KeyboardInterrupt out of a callback, a unary call inside an open stream
+    # the same proxy method before, inside and after a stream (its caller is built once and cached by the proxy)
+    _c(1, [[B(0, [["echo"], ["open", "prod", 3, 0], ["tick"], ["echo"], ["close"], ["echo"]]), B(), B()], [B()]]),
+    _c(2, [[B(0, [["noisy", 1], ["open", "exch", 0, 0], ["send", 1], ["noisy", 1], ["close"]]), B()], [B(), B()]]),
+    _c(1, [[B(0, [["echo"], ["open", "prod", 3, 0], ["tick"], ["echo"], ["close"]]), B(), B()]], lazy_exit=False),
+    # a non-Exception out of a callback (KeyboardInterrupt, SystemExit, asyncio.CancelledError, a watchdog's own class)
     _c(1, [[B(0, NOISY, cb={"at": [2], "exc": "ki"}), B(), B()], [B()]]),
+    _c(1, [[B(0, NOISY, cb={"at": [2], "exc": "base"}), B(), B()], [B()]]),
+    _c(1, [[B(0, NOISY, cb={"at": [1], "exc": "cancel"}), B()], [B(0, PRODH_CLOSE, cb={"at": [2], "exc": "exit"}), B()]]),
     _c(1, [[B(0, PROD_CLOSE, cb={"at": [3], "exc": "ki"}), B()], [B(0, [["open", "prod", 2, 0], ["tick"], ["echo"], ["close"]]), B()]]),
     # callbacks raising inside unary calls, leaving the block by an exception
     _c(1, [[B(0, NOISY, cb={"at": [2]}, propagate=True), B()], [B(0, NOISY, cb={"at": [1]}), B()]]),
@@ -665,7 +696,8 @@ def callback_family() -> list[dict[str, Any]]:
                     cb = {"at": [k]} if mode == "at" else {"from": k}
                     out.append(_c(1, [[B(0, ops, cb=cb, propagate=prop), B(), B()]], src=f"cb:{name}"))
             if name in ("noisy", "prod_close", "prodh_close", "exch_close"):
-                out.append(_c(1, [[B(0, ops, cb={"at": [k], "exc": "ki"}), B(), B()]], src=f"ki:{name}"))
+                for kind in INTERRUPTS:
+                    out.append(_c(1, [[B(0, ops, cb={"at": [k], "exc": kind}), B(), B()]], src=f"intr-{kind}:{name}"))
     return out
 
 
@@ -673,20 +705,27 @@ def gen_ops(rng: Any) -> list[list[Any]]:
     ops: list[list[Any]] = []
     for _ in range(rng.choice([1, 1, 2, 2, 3])):
         r = rng.random()
-        unary_inside = rng.random() < 0.12
+        # the same proxy method repeated around a stream: before it (the proxy builds and caches the caller), inside it
+        # (a call interleaved with the open stream) and after it
+        same = rng.choice([["echo"], ["echo"], ["noisy", 1], ["bad"]]) if rng.random() < 0.2 else None
         if r < 0.35:
             ops.append(rng.choice([["echo"], ["echo"], ["noisy", rng.choice([1, 2, 3])], ["bad"]]))
             continue
         kind = rng.choice(["prod", "prod", "prodh", "exch", "exch", "badstream"])
         n, logs = rng.choice([0, 1, 2, 3]), rng.choice([0, 1, 2])
+        if same is not None and rng.random() < 0.7:
+            ops.append(list(same))
         ops.append(["open", kind, n, logs])
         if kind == "badstream":
             continue
         for _ in range(rng.choice([0, 1, 1, 2, 3])):
             ops.append(["send", rng.randrange(9)] if kind == "exch" else ["tick"])
-        if unary_inside:
-            ops.append(["echo"])
-        end = rng.choice(["close", "close", "cancel", "iter", "abandon", "abandon", "sendbad", "kill", "mask"])
+        if same is not None:
+            ops.append(list(same))
+        if same is not None and rng.random() < 0.5:
+            end = "close"
+        else:
+            end = rng.choice(["close", "close", "cancel", "iter", "abandon", "abandon", "sendbad", "kill", "mask"])
         if end == "iter" and kind == "exch":
             end = "close"
         if end == "sendbad" and kind != "exch":
@@ -699,6 +738,8 @@ def gen_ops(rng: Any) -> list[list[Any]]:
             ops.append([end])
             if end == "sendbad" and rng.random() < 0.5:
                 ops.append(["close"])
+        if same is not None and rng.random() < 0.5:
+            ops.append(list(same))
     return ops
 
 
@@ -718,8 +759,8 @@ def gen_cfg(rng: Any) -> dict[str, Any]:
                     k = rng.choice([1, 1, 2, 2, 3, 4, 5, 6])
                     spec["cb"] = {"at": [k]} if rng.random() < 0.5 else {"from": k}
                     spec["propagate"] = rng.random() < 0.5
-                    if rng.random() < 0.15:
-                        spec["cb"]["exc"] = "ki"
+                    if rng.random() < 0.2:
+                        spec["cb"]["exc"] = rng.choice(INTERRUPTS)
                 if rng.random() < 0.1:
                     spec["exit"] = "raise"
                 jobs.append(["borrow", rng.randrange(len(keys)), spec])
@@ -734,7 +775,7 @@ def gen_cfg(rng: Any) -> dict[str, Any]:
             else:
                 jobs.append(["kill", rng.choice([0, 0, 1])])
         threads.append(jobs)
-    cfg = _c(maxIdle, threads, keys=keys, timeout=timeout, src="gen")
+    cfg = _c(maxIdle, threads, keys=keys, timeout=timeout, src="gen", lazy_exit=rng.random() < 0.75)
     if rng.random() < 0.08:
         cfg["fail_spawns"] = [rng.choice([0, 1, 2])]
     return cfg
